@@ -648,6 +648,8 @@ class Fingerprint(object):
             if linked:
                 fp.unfolded_fingerprint = self
                 self.folded_fingerprint[(bits, method)] = fp
+            else:
+                return fp
 
         assert isinstance(
             self.folded_fingerprint[(bits, method)], self.__class__
